@@ -61,6 +61,7 @@ def check_ode(rep, drv, rng, ode, text, label, mirror_case=None):
             return
         saved = open(path).read()
         c2 = pipeline.Case(drv, saved)
+        pipeline.check_parser(rep, drv, saved, "saved file")
         if c2.err is not None:
             rep.violation(f"the saved file is rejected by the loader: {c2.err}: {repr(c2.exc)[:140]}",
                           {"kind": "direct", "text": text, "saved": saved, "label": label})
